@@ -15,3 +15,6 @@ mod versioned;
 mod write;
 
 pub use builder::ZoneBuilder;
+
+#[cfg(nlnetlabs_domain_verif)]
+pub use versioned::{Version, Versioned};
